@@ -28,7 +28,7 @@ def run(ctx):
            rule="one evaluation = one real installer run in a fresh sandbox with an EIO injected at call k (and k2 for double faults); "
                 "distinct (scenario, k, k2) counted; all take the fault",
            states=st["states"], transitions=st["transitions"], traces_validated_against_impl=st["traces"],
-           scenarios=summ["scenarios"], skipped=summ.get("skipped", []), monitor_binding_drift=st["drift"],
+           scenarios=summ["scenarios"], skipped=summ.get("skipped", []), monitor_binding_drift=st["drift"], batch_protocol_inclusion=st.get("txn"),
            exhaustive=(ctx.tier == "thorough"))
     for r in rows[:3]:
         ev.sample({k: r[k] for k in ("op", "k", "k2", "at", "outcome", "diff", "verdict")})
